@@ -25,6 +25,9 @@ META = dict(
     assumptions=['protection is decided by the flag of the written container (and the scope): a descendant that the user explicitly unsealed below a sealed ancestor is writable (design/C08.md)'],
 )
 
+# mutators that (also) go through the accessor check
+ACCESSOR_DEPENDENT = D.ACCESSOR_OPS | {D.LREMOVE, D.DSETDEFAULT}
+
 def leaf_enc(impl, v):
   return impl.enc_leaf(v, None)
 
@@ -96,7 +99,7 @@ class Oracle:
           else: ok = False; break
         if ok and D.is_sym(x): owners.append(x)
     prot = [o for o in owners if sealed(o)]
-    return dict(forest=impl.snapshot(), target=target, protected=prot,
+    return dict(forest=impl.snapshot(), target=target, protected=prot, s_scope=s_scope,
                 prot_snaps=[impl.snap(o, o.sym_parent, None) for o in prot],
                 how='scope' if s_scope is not None else 'flag', ahow='scope' if a_scope is not None else 'flag',
                 writable=writable(target), would_change=would_change(impl, target, op))
@@ -134,6 +137,10 @@ class Oracle:
         hit('accessor-changed', before['ahow'], '%s changed a value whose accessors are not writable (%s)' % (name, before['ahow']))
       elif before['would_change'] and not refused:
         hit('accessor-no-error', before['ahow'], '%s raised %s instead of WritePermissionError' % (name, type(exc).__name__ if exc else 'nothing'))
+    # the innermost scope override wins over the per-object flag: inside as_sealed(False) nothing is sealed, and with
+    # writable accessors (by scope or flag) no mutator may be refused
+    if refused and before['s_scope'] is False and (tag not in ACCESSOR_DEPENDENT or before['writable']):
+      hit('scope-ignored', 'as_sealed(False)', '%s raised WritePermissionError inside pg.as_sealed(False) (accessor writable: %s)' % (name, before['writable']))
     if tag == D.REBIND and refused and not before['protected']:
       hit('rebind-refused', before['ahow'], 'rebind raised WritePermissionError although no written container is treated as sealed (accessor_writable=%s)' % before['writable'])
     if tag == D.SEAL and exc is None:
@@ -196,6 +203,23 @@ def _args_for(name, kind):
   first = {'List': 0, 'Dict': 'a', 'Object': 'x'}[kind]
   return [(), (first,), (first, None), (P.KeyPath(first),), ('%s' % first,), (lambda k, v, p: P.TraverseAction.ENTER,), (1,), ([1],), ({'a': 1},), (None, None)]
 
+import contextlib as _cl, os as _os, sys as _sys
+@_cl.contextmanager
+def quiet():
+  """Silences whatever the called attribute prints (also through file descriptors captured at import time)."""
+  _sys.stdout.flush(); _sys.stderr.flush()
+  saved = (_os.dup(1), _os.dup(2))
+  devnull = _os.open(_os.devnull, _os.O_WRONLY)
+  try:
+    _os.dup2(devnull, 1); _os.dup2(devnull, 2)
+    with _cl.redirect_stdout(open(_os.devnull, 'w')), _cl.redirect_stderr(open(_os.devnull, 'w')):
+      yield
+  finally:
+    _sys.stdout.flush(); _sys.stderr.flush()
+    _os.dup2(saved[0], 1); _os.dup2(saved[1], 2)
+    for fd in saved + (devnull,):
+      _os.close(fd)
+
 def surface_probe_one(c):
   """Replays one sweep finding {kind:'surface', cls, name, mode}: True iff it still fails."""
   return bool(_surface_hits(only=(c['cls'], c['name'])))
@@ -233,7 +257,7 @@ def _surface_hits(only=None):
         impl = D.Impl(); impl.roots.append(x)
         s0 = impl.snapshot()
         try:
-          with cl.redirect_stdout(io.StringIO()), D.watchdog(5):
+          with quiet(), D.watchdog(5):
             getattr(x, name)(*args)
           ran = True
         except P.WritePermissionError:
